@@ -9,6 +9,7 @@ mod exec;
 mod gen;
 mod gen2;
 mod gen_elf;
+mod misc;
 mod proj;
 mod rng;
 mod sections;
@@ -186,6 +187,7 @@ pub fn gen_more(fam: &str, r: &mut rng::Rng, n: u64, x: &mut exec::Exec, sink: &
         "elfcorrupt" => gen_elf::elf_family(r, n, x, sink, true),
         "garbage" => gen_elf::garbage_family(r, n, x, sink),
         "abi" => abi_ev::run(r, n, x, sink),
+        "misc" => { for i in 0..n { let v = if i < 70000 { i } else { r.edge64() }; sink.run(x, &serde_json::json!({"op":"misc","v":v})); } }
         "prefix" => gen_elf::prefix_family(r, n, x, sink, false),
         "prefixall" => gen_elf::prefix_family(r, n, x, sink, true),
         "locate" => gen_elf::locate_family(r, n, x, sink),
